@@ -12,6 +12,7 @@ import (
 	"runtime/pprof"
 	"sort"
 	"strconv"
+	"strings"
 	"sync"
 	"time"
 )
@@ -240,6 +241,14 @@ func (r *Run) Finish() {
 	r.mu.Lock()
 	defer r.mu.Unlock()
 	wall := time.Since(r.start).Seconds()
+	if f := os.Getenv("VERIF_DUMP_CLASSES"); f != "" { // debugging aid: the distinct-outcome keys, sorted
+		var ks []string
+		for k := range r.classes {
+			ks = append(ks, k)
+		}
+		sort.Strings(ks)
+		os.WriteFile(f, []byte(strings.Join(ks, "\n")+"\n"), 0o644)
+	}
 
 	cov := map[string]interface{}{}
 	for k, v := range r.cov {
